@@ -11,7 +11,7 @@ for f in os.listdir(src):
 json.dump({"property": pid, "round": rnd,
            "source": "independent sub-agent given only the property text, a scratch worktree and one-line descriptions of the earlier faults to avoid",
            "breaks": breaks, "needs_to_manifest": needs,
-           "baseline_suite": "compiles; cargo test --workspace --no-fail-fast --offline: 43 passed (confirmed, work/confirm_seeds7.log)",
-           "demonstration": "see notes.md; demo.sh confirmed in both directions (work/confirm_seeds7.log)",
+           "baseline_suite": "compiles; cargo test --workspace --no-fail-fast --offline: 43 passed (confirmed by me with tools/confirm_seeds.sh, log work/confirm_seeds%s.log)" % (7 if rnd == 3 else rnd),
+           "demonstration": "see notes.md; demo.sh confirmed by me in both directions (same log)",
            "what_i_ran": "tools/seeded.py run %s_r%d" % (pid, rnd)}, open(os.path.join(dst, "meta.json"), "w"), indent=1)
 print(dst, sorted(os.listdir(dst)))
